@@ -76,13 +76,16 @@ struct Params {
     never_release: bool,
     /// the releaser issues the cancel itself right before (true) / right after (false) the event
     adjacent: Option<bool>,
+    /// one of the values on the target's stack yields in its destructor (user code may do that):
+    /// the cancelled coroutine passes through a yield while the cancel unwinds it
+    yield_in_drop: bool,
 }
 
 fn gen(seed: u64) -> Params {
     let mut r = gen_rng(seed);
     let rt = RtCfg::gen(&mut r, 3);
     let nb = r.range(0, 2) as usize;
-    Params {
+    let p = Params {
         rt,
         kind: *r.pick(&KINDS),
         bystanders: (0..nb).map(|_| Ctx::gen(&mut r)).collect(),
@@ -94,7 +97,19 @@ fn gen(seed: u64) -> Params {
         pre_yields: r.below(3) as u32,
         never_release: r.chance(1, 4),
         adjacent: if r.chance(1, 3) { Some(r.chance(2, 3)) } else { None },
+        yield_in_drop: false,
+    };
+    // drawn last: everything above is the same as before this field existed
+    let mut p = p;
+    if r.chance(1, 5) {
+        p.yield_in_drop = true;
+        // std counts panics per OS thread: a coroutine that yields while it unwinds and comes
+        // back on another worker would leave both workers with a wrong count for good (nothing
+        // may claims anything about that). One worker: the count is right again as soon as the
+        // unwinding is over
+        p.rt.workers = 1;
     }
+    p
 }
 
 struct World {
@@ -296,11 +311,23 @@ pub fn run(seed: u64, mut ov: impl FnMut(&mut engine::Cfg)) -> ! {
     let target_reached_end = Arc::new(AtomicBool::new(false));
     let target = {
         let (w2, ids, hold, pre, tre) = (w.clone(), owned_ids.clone(), p.hold_other_lock, p.pre_yields, target_reached_end.clone());
+        let yid = p.yield_in_drop;
         let mut joinee = joinee;
         let mut rx = Some(mpsc_rx);
         rt::spawn_actor(Ctx::Co, "target", move || {
             // values owned by the target's stack, and a lock it holds while it blocks
             let _owned: Vec<Tok> = ids.iter().map(|i| Tok::new(*i)).collect();
+            struct YieldOnDrop(bool);
+            impl Drop for YieldOnDrop {
+                fn drop(&mut self) {
+                    // only on the way out by a panic: on the normal way out it would be one
+                    // more cancellation point behind the target's "reached my end" mark
+                    if self.0 && std::thread::panicking() {
+                        coroutine::yield_now();
+                    }
+                }
+            }
+            let _y = YieldOnDrop(yid);
             let _guard = if hold { Some(w2.held.lock().unwrap()) } else { None };
             for _ in 0..pre {
                 coroutine::yield_now();
